@@ -209,6 +209,7 @@ var partialProof = &core.Check{Name: "c18/partial", Quick: 400, Thorough: 60000,
 			}
 			return err
 		}
+		readTree(c, "first.read", t)
 		p1, err := boc.NewMerkleProver(t)
 		if err != nil {
 			return fmt.Errorf("NewMerkleProver: %v", err)
